@@ -195,15 +195,17 @@ Definition getnextarg (a : astate) : option (pyval * astate) :=
   | AOne None => None
   end.
 
+Fixpoint key_eqb (a b : list N) : bool :=
+  match a, b with
+  | [], [] => true
+  | x :: a', y :: b' => (x =? y) && key_eqb a' b'
+  | _, _ => false
+  end.
+
 Fixpoint lookup (k : list N) (d : list (list N * pyval)) : option pyval :=
   match d with
   | [] => None
-  | (k0, v) :: r => if (fix eqb (a b : list N) : bool :=
-                          match a, b with
-                          | [], [] => true
-                          | x :: a', y :: b' => (x =? y) && eqb a' b'
-                          | _, _ => false
-                          end) k0 k then Some v else lookup k r
+  | (k0, v) :: r => if key_eqb k0 k then Some v else lookup k r
   end.
 
 (* largest int that PyFloat_AsDouble converts without OverflowError: below 2^1024 - 2^970 *)
